@@ -110,3 +110,24 @@ Theorem C15_second_propagation_adds_nothing : forall gs mk name g g',
   propagate_step gs mk name g = Some g' -> propagate_step gs mk name g' = Some g'.
 Proof. exact second_run_adds_nothing. Qed.
 Print Assumptions C15_second_propagation_adds_nothing.
+
+(* ---- the same three statements for a mark made only of marks, where one mark component is PROMOTED to base (which one is
+   decided by outline bounds: an input `promo` of the model, computed by the check with fontTools' BoundsPen) ---- *)
+Theorem C15_propagation_with_promotion_never_overrides : forall gs mk promo name g g',
+  propagate_step_p gs mk promo name g = Some g' ->
+  gcontours g' = gcontours g /\ gcomps g' = gcomps g /\ gwidth g' = gwidth g /\
+  exists added, ganchors g' = ganchors g ++ added /\
+                forall k v, In (k, v) added -> forall a, In a (ganchors g) -> fst a <> k.
+Proof. exact propagation_never_overrides_p. Qed.
+Print Assumptions C15_propagation_with_promotion_never_overrides.
+
+Theorem C15_added_anchor_is_a_component_image_with_promotion : forall gs mk promo name g g' k v,
+  propagate_step_p gs mk promo name g = Some g' -> In (k, v) (ganchors g') ->
+  In (k, v) (ganchors g) \/ image_of_a_component gs g v.
+Proof. exact added_anchor_is_a_component_image_p. Qed.
+Print Assumptions C15_added_anchor_is_a_component_image_with_promotion.
+
+Theorem C15_second_propagation_adds_nothing_with_promotion : forall gs mk promo name g g',
+  propagate_step_p gs mk promo name g = Some g' -> propagate_step_p gs mk promo name g' = Some g'.
+Proof. exact second_run_adds_nothing_p. Qed.
+Print Assumptions C15_second_propagation_adds_nothing_with_promotion.
